@@ -19,7 +19,10 @@ EXPLANATION = (
 "(number, wire type) a hand-written reader compares a parsed Tag against is emitted by a writer of the same type; (C19.4) a "
     "second structural clause, of `the bit vectors answer access, rank and select exactly as a plain bit array`: the sibling "
     "implementations (reference, rrr, cf_rrr, sparse) agree on the index domain -- access answers None exactly when index >= "
-    "len(), rank exactly when index > len() (cross-check of siblings on the comparison operator of their entry test).  "
+    "len(), rank exactly when index > len() (cross-check of siblings on the comparison operator of their entry test); (C19.5) a "
+    "structural clause of `finds the same occurrences ... including absent patterns`: one step of backward search "
+    "(Psi::constrain) keeps an empty range empty -- every early return taken on an emptiness test (lo > hi) yields a pair "
+    "proved empty (the tested pair itself, (t, t - 1), or a constant pair).  "
     "TABLE reading of derived unpack switch trees, ORIGIN of builder receivers and field-number constants over resolved MIR.")
 NOT_DECIDED = ("everything else in C19: suffix-array construction, psi, backward search, rank/select, record mapping and extraction are "
                "numerical results over all inputs; the byte-level layout inside bytes fields (offsets in the prefix wavelet tree, bit "
@@ -35,6 +38,7 @@ WIRE = {"append_u32": 0, "append_u64": 0, "append_vec_u32": 0, "append_vec_usize
 def rules(ctx):
     c191(ctx)
     c194(ctx)
+    c195(ctx)
 
 
 def builder_params(f):
@@ -383,3 +387,49 @@ def c194(ctx):
                   "%s answers None when index %s len(), its siblings when index %s len(): %s" % (
                       f.skey, rel, want[f.name], "the last valid position is refused" if (rel, want[f.name]) == (">=", ">") else "one position past the end is accepted"))
     ctx.floor(R, "bit vector access/rank implementations with their own index test", n, 4)
+
+
+# ------------------------------------------------------------------------------------------------
+# C19.5 a backward-search step keeps an empty range empty
+
+def c195(ctx):
+    R = "C19.5"
+    ctx.declare(R, "one step of backward search maps an empty suffix-array range (lo > hi: the symbol or the match so far does not occur) "
+                   "to an empty range: every early return taken on an emptiness test yields a pair (a, b) with a > b")
+    from blue import bounds as B
+    n = 0
+    for f in sorted(ctx.prog.fns.values(), key=lambda f: f.key):
+        if f.crate != "scrunch" or f.name != "constrain" or not (f.impl_trait or "").endswith("psi::Psi"):
+            continue
+        bf = B.BF(ctx.prog, f)
+        for b in P.switch_blocks(f):
+            facts = bf.edge_facts(b.idx, "sw:1")
+            # emptiness test of a parameter:  p.1 < p.0
+            emp = [(x, y) for (x, op, y) in facts if op == "<" and x[0] == "pl" and y[0] == "pl" and x[1] == y[1] and 1 <= x[1] <= f.argc and
+                   x[2] == ("1",) and y[2] == ("0",)]
+            if not emp:
+                continue
+            tgt = dict(b.succs).get("sw:1")
+            # the early return on this edge: an Ok(..) reached without any call in between
+            calls = [P.term_pt(f, bb.idx) for bb in f.blocks if bb.term["t"] == "call"]
+            oks = [(bb.idx, i) for bb in f.blocks for i, st in enumerate(bb.st) if st["s"] == "=" and st["lhs"]["l"] == 0 and P._is_ok_agg(st["rv"])]
+            here = [o for o in oks if P.reach(f, [(tgt, 0)], [o], avoid=set(calls)) is not None]
+            for o in here:
+                n += 1
+                st = f.blocks[o[0]].st[o[1]]
+                val = st["rv"]["ops"][0]
+                lo = bf.term_of(val["pl"]["l"], ("0",)) if val.get("k") in ("copy", "move") else ("?",)
+                hi = bf.term_of(val["pl"]["l"], ("1",)) if val.get("k") in ("copy", "move") else ("?",)
+                why = None
+                if lo[0] == "c" and hi[0] == "c" and lo[1] > hi[1]:
+                    why = "the constant pair (%d, %d)" % (lo[1], hi[1])
+                elif hi == ("sub", lo, ("c", 1)):
+                    why = "(t, t - 1)"
+                else:
+                    why = bf.prove(hi, True, lo, o)
+                who = f.local_name(emp[0][0][1]) or "_%d" % emp[0][0][1]
+                ctx.check(R, f, "empty-stays-empty", bool(why),
+                          "when `%s` is empty the step returns an empty range (%s)" % (who, why),
+                          "when `%s` is empty (lo > hi) the step returns (%s, %s), which is not known to be empty: an absent symbol no longer empties the "
+                          "match, so patterns that do not occur are reported with the hits of a shorter pattern" % (who, B.named(f, lo), B.named(f, hi)), pt=o)
+    ctx.floor(R, "early returns on an emptiness test in Psi::constrain", n, 2)
